@@ -208,6 +208,11 @@ PgrRatios == IsPgr => LET n == Sum3(out.lam) IN
                                                    /\ QAdd(PointShare(out.pgr), GirdleShare(out.pgr)) = QOne
                                                    /\ In01(Coaxial(out.pgr, out.pgr))))
 
+\* P, G, R depend on the count triple only through its proportions: m copies of every grain change nothing (the lumping
+\* lemma of the eigenvalue diagnostics; the harness replays every triple at m = 1, 11, 50, 128 - up to 1536 grains - as
+\* axis-aligned textures, also as integer-typed arrays)
+PgrScaleFree == IsPgr => \A m \in {2, 11, 50, 128} : PGR(CountsQ([k \in I3 |-> m * out.c[k]])) = out.pgr
+
 \* ------------------------------------------------------------------ finite strain, F = Q diag(s) Q^T R'
 AuxRot(i) == QuatRot(<< <<1, 0, 0, 0>>, <<1, 1, 0, 0>>, <<1, 1, 1, 1>>, <<1, 1, 1, 0>>, <<1, -1, 0, 1>>, <<0, 1, 1, -1>> >>[i])
 AuxPairs == {<<1, 4>>, <<4, 5>>, <<3, 2>>, <<6, 3>>, <<5, 6>>}          \* <<index of R', index of Q'>>
@@ -309,7 +314,8 @@ Emitted == CASE out.kind = "tex" ->
                    stretch |-> out.stretch, kappa |-> out.kappa, axis |-> out.axis, angleDeg |-> out.angleDeg,
                    docstringFrame |-> out.docstringFrame]
              [] OTHER -> out
-Emit == (phase = "out" /\ out.kind # "pgr") => PrintT(<<(IF IsScen THEN "SCEN" ELSE "CASE"), ToJson(Emitted)>>)
+Emit == /\ (phase = "out" /\ out.kind # "pgr") => PrintT(<<(IF IsScen THEN "SCEN" ELSE "CASE"), ToJson(Emitted)>>)
+        /\ IsPgr => PrintT(<<"PGR", ToJson([c |-> out.c, pgr |-> out.pgr, lam |-> out.lam])>>)
 
 \* tier domains (assigned in the cfg files with  Const <- Def)
 PatsAll == 0..3
